@@ -131,6 +131,9 @@ func Execute(c *Call) (res string) {
 		o, err := x25519.X25519(c.a, x25519.Basepoint)
 		var d [32]byte
 		var in [32]byte
+		for i := range d {
+			d[i] = 0xff // callers reuse destination arrays: the result must not depend on their old content
+		}
 		copy(in[:], c.a)
 		x25519.ScalarBaseMult(&d, &in)
 		return fmt.Sprintf("%s/%v/%s", hx(o), err != nil, hx(d[:]))
